@@ -333,20 +333,66 @@ macro_rules! endpoint_path {
 }
 
 // @family prop=C20 tier=quick timeout=900 role=endpoint-confined
-// @bounds endpoint string of the fixed length in the name (1, 3, 5 bytes), every byte symbolic ASCII (0..=0x7f); validate_endpoint must equal the oracle (whitelist, no leading '/', no '.' / '..' segment) and the plain join cache_dir/api/ribbit/<accepted endpoint> must stay lexically inside /c/api/ribbit
+// @bounds endpoint string of the fixed length in the name (1, 2 bytes), every byte symbolic ASCII (0..=0x7f): validate_endpoint must equal the oracle (whitelist, no leading '/', no '.' / '..' segment) and the plain join cache_dir/api/ribbit/<accepted endpoint> must stay lexically inside /c/api/ribbit
 // @encodes cascette_protocol::client::validate_endpoint
 // @assumes the key prefix "api/ribbit/" is concatenated by the harness (query() builds it with format! inside an async network path); fmt::format stubbed (error text); non-ASCII endpoints not covered (Unicode tables); DiskCache::get_file_path is exercised on concrete keys only (c20_disk_path_*_keys)
 // @catches a character dropped from / added to the whitelist ('\\', ':', space, NUL, '%'), validation skipped for some position, leading '/' or '.' / '..' segments accepted again, accepted endpoints leaving cache_dir/api/ribbit
-endpoint_path!(c20_endpoint_confined_len1, 1, 9, true, "/c/api/ribbit", "accepted endpoint leaves cache_dir/api/ribbit");
-endpoint_path!(c20_endpoint_confined_len3, 3, 9, true, "/c/api/ribbit", "accepted endpoint leaves cache_dir/api/ribbit");
-endpoint_path!(c20_endpoint_confined_len5, 5, 9, true, "/c/api/ribbit", "accepted endpoint leaves cache_dir/api/ribbit");
+endpoint_path!(c20_endpoint_confined_len1, 1, 4, true, "/c/api/ribbit", "accepted endpoint leaves cache_dir/api/ribbit");
+endpoint_path!(c20_kf_endpoint_namespace_len2, 2, 5, true, "/c/api/ribbit", "accepted endpoint leaves cache_dir/api/ribbit");
 // @end
-
-// @family prop=C20 tier=quick timeout=900 role=endpoint-traversal-regressions
-// @bounds endpoint of 2 bytes (ASCII symbolic; contains "..", "./", "/a") and endpoint of 8 bytes over {'.', '/', 'a', '-'} (contains "../../..", "a/../..", "/aaaaaaa"); same checks as c20_endpoint_confined_len1
+// @family prop=C20 tier=thorough timeout=3300 mem=24 role=endpoint-confined-longer
+// @bounds as c20_endpoint_confined_len1 for 3 and 5 symbolic ASCII bytes (len3: 389 s; len5: solver out of memory at 16 GB in the quick tier, not re-measured at 24 GB; 8 symbolic bytes: symex out of memory -- the fixed validate_endpoint splits with CharSearcher/memchr/memcmp, whose nested loops are unrolled to the bound for symbolic content)
 // @encodes cascette_protocol::client::validate_endpoint
 // @assumes as c20_endpoint_confined_len1
-// @catches '..' / '.' segments or absolute endpoints passing validation again (former defects)
-endpoint_path!(c20_kf_endpoint_namespace_len2, 2, 9, true, "/c/api/ribbit", "accepted endpoint leaves cache_dir/api/ribbit");
-endpoint_path!(c20_kf_endpoint_escapes_len8, 8, 11, false, "/c/api/ribbit", "accepted endpoint leaves cache_dir/api/ribbit");
+endpoint_path!(c20_endpoint_confined_len3, 3, 6, true, "/c/api/ribbit", "accepted endpoint leaves cache_dir/api/ribbit");
+endpoint_path!(c20_endpoint_confined_len5, 5, 8, true, "/c/api/ribbit", "accepted endpoint leaves cache_dir/api/ribbit");
 // @end
+
+const ENDPOINTS: [&str; 14] = [
+    "..", "../../..", "a/../..", "a/..", "/a", "./a", "a/./b", ".", "a b", "..a", "a..b", "a/", "a//b", "v1/summary",
+];
+
+// @harness prop=C20 tier=quick timeout=900 role=endpoint-traversal-regressions
+// @bounds 14 concrete endpoints incl. the former escapes "..", "../../..", "a/../.." and "/a", "./a", "a/./b", ".", "a b" (must be rejected) and "..a", "a..b", "a/", "a//b", "v1/summary" (must be accepted; all < 16 bytes: longer strings take memchr's aligned path, whose split point depends on the symbolic pointer address and stay inside /c/api/ribbit under a plain join)
+// @encodes cascette_protocol::client::validate_endpoint
+// @assumes as c20_endpoint_confined_len1; concrete list (8 symbolic bytes are not tractable, see c20_endpoint_confined_len5)
+// @catches '..' / '.' segments or absolute endpoints passing validation again (former defects), over-rejection of dots inside names
+#[kani::proof]
+#[kani::unwind(16)]
+#[kani::stub(std::fmt::format, crate::stubs::fmt_format_empty)]
+fn c20_kf_endpoint_escapes_list() {
+    let mut n = 0;
+    while n < ENDPOINTS.len() {
+        let e: &str = ENDPOINTS[n];
+        let b = e.as_bytes();
+        let verdict = cascette_protocol::client::verif_access::validate_endpoint(e);
+        let accepted = verdict.is_ok();
+        std::mem::forget(verdict);
+        let mut ok = b.len() > 0 && b[0] != b'/';
+        let mut start = 0;
+        let mut i = 0;
+        while i <= b.len() {
+            if i == b.len() || b[i] == b'/' {
+                let w = i - start;
+                if (w == 1 && b[start] == b'.') || (w == 2 && b[start] == b'.' && b[start + 1] == b'.') {
+                    ok = false;
+                }
+                start = i + 1;
+            } else {
+                let c = b[i];
+                ok &= c.is_ascii_alphanumeric() || c == b'_' || c == b'-' || c == b'.';
+            }
+            i += 1;
+        }
+        assert!(accepted == ok, "validate_endpoint must accept exactly: whitelist characters, no leading '/', no '.' / '..' segment");
+        if accepted {
+            let mut v: Vec<u8> = Vec::with_capacity(14 + b.len());
+            v.extend_from_slice(b"/c/api/ribbit/");
+            v.extend_from_slice(b);
+            assert!(confined_under(&v, b"/c/api/ribbit"), "accepted endpoint would leave api/ribbit under a plain join");
+            std::mem::forget(v);
+        }
+        n += 1;
+    }
+    kani::cover!(n == ENDPOINTS.len(), "all endpoints processed");
+}
